@@ -4,7 +4,7 @@ import graphs as gr
 
 PROP = "C19"
 RULE = ("every directed mixed graph CYC(n) (any subset of the n(n-1) directed and n(n-1)/2 bidirected edges) n<=3 complete, "
-        "plus 1200 (quick) / 50000 (thorough) sampled n=4 (half of them with edge probability 1/4), the design's two witnesses, "
+        "plus 900 (quick) / 50000 (thorough) sampled n=4 (half of them with edge probability 1/4), the design's two witnesses, "
         "all pairwise-disjoint (X,Y,Z) with X<Y; seeded random n<=8 (sigma oracle up to n=6 and 14 edges), half of them "
         "built from 2-3 non-trivial strongly connected components feeding each other; graphs without a bidirected edge also "
         "with the bidirected layer absent; every small graph, a quarter of the n=4 samples and half of the random ones again as "
@@ -18,7 +18,7 @@ RULE = ("every directed mixed graph CYC(n) (any subset of the n(n-1) directed an
         "whose expected sigma answers are known by construction; "
         "distinct by (canonical graph, layers, repeat, names, object kind); non-trivial = the graph has a directed cycle "
         "and the queries contain a sigma-separated and a sigma-connected one")
-EXHAUSTIVE = {"quick": "all CYC(n) n<=3, all disjoint X,Y,Z (n=4: 1200 sampled)", "thorough": "all CYC(n) n<=3, all disjoint X,Y,Z (n=4: 50000 sampled)"}
+EXHAUSTIVE = {"quick": "all CYC(n) n<=3, all disjoint X,Y,Z (n=4: 900 sampled)", "thorough": "all CYC(n) n<=3, all disjoint X,Y,Z (n=4: 50000 sampled)"}
 TRUSTED = ["networkx strongly_connected_components / complete_graph and their yield order taken at face value",
            "m_separated (property C01) is what sigma_separated delegates to"]
 ASSUMPTIONS = ["default edge-type names", "only directed and bidirected layers (the property's domain)", "int labels (label families: C15)",
@@ -187,7 +187,7 @@ def gen_cases(tier, rng):
     for g in (gr.G(range(4), D=[[0, 1], [1, 0], [1, 2], [2, 3], [3, 2]]),
               gr.G(range(4), D=[[0, 1], [1, 0], [2, 3], [3, 2]], B=[[1, 2]])):
         yield {"kind": "witness", "g": g, "layers": ["directed", "bidirected"], "qs": queries(g["V"]), "oracle": True}
-    n4 = 1200 if tier == "quick" else 50000
+    n4 = 900 if tier == "quick" else 50000
     for i in range(n4):
         code = rng.randrange(n_codes(4))
         if i % 2:
